@@ -518,12 +518,77 @@ pub fn c18(tier: Tier) -> i32 {
             viol!("enc:committeefile", "committee file round trip failed".to_string(), json!({}));
         }
     }
+    // histories of exports to ONE path (a key or committee file regenerated in place): every sequence
+    // of <= 3 documents out of {key file 0, key file 1, committee of 2, of 4, of 7 with large stakes};
+    // after every write the file must read back as the document just written
+    {
+        use crate::nodecfg::Export as _;
+        let mk_committee = |stakes: &[u32]| {
+            let w = World::new(stakes);
+            crate::nodecfg::Committee { consensus: w.committee.clone(), mempool: w.mempool_committee() }
+        };
+        #[derive(Clone, Copy, Debug)]
+        enum Doc {
+            Key(usize),
+            Committee(usize),
+        }
+        let committees = [mk_committee(&[1, 1]), mk_committee(&[1, 1, 1, 1]), mk_committee(&[1_000_000; 7])];
+        let docs = [Doc::Key(0), Doc::Key(1), Doc::Committee(0), Doc::Committee(1), Doc::Committee(2)];
+        let mut hists: Vec<Vec<Doc>> = Vec::new();
+        fn rec<T: Copy>(len: usize, a: &[T], cur: &mut Vec<T>, out: &mut Vec<Vec<T>>) {
+            if !cur.is_empty() {
+                out.push(cur.clone());
+            }
+            if cur.len() == len {
+                return;
+            }
+            for e in a {
+                cur.push(*e);
+                rec(len, a, cur, out);
+                cur.pop();
+            }
+        }
+        rec(3, &docs, &mut Vec::new(), &mut hists);
+        let mut file_hist = 0u64;
+        for (hi, h) in hists.iter().enumerate() {
+            let path = format!("{}/hist-{}.json", dir, hi);
+            let _ = std::fs::remove_file(&path);
+            file_hist += 1;
+            for (step, d) in h.iter().enumerate() {
+                evals += 1;
+                let ok = match d {
+                    Doc::Key(k) => {
+                        let (pk, sk) = &ks[*k];
+                        let secret = crate::nodecfg::Secret { name: *pk, secret: world::clone_secret(sk) };
+                        match secret.write(&path).ok().and_then(|_| crate::nodecfg::Secret::read(&path).ok()) {
+                            Some(s2) => s2.name == *pk && s2.secret.encode_base64() == sk.encode_base64(),
+                            None => false,
+                        }
+                    }
+                    Doc::Committee(c) => {
+                        let want = serde_json::to_value(&committees[*c]).unwrap();
+                        match committees[*c].write(&path).ok().and_then(|_| crate::nodecfg::Committee::read(&path).ok()) {
+                            Some(c2) => serde_json::to_value(&c2).unwrap() == want,
+                            None => false,
+                        }
+                    }
+                };
+                if !ok {
+                    viol!("enc:file-history", format!("after exporting {:?} to one path in this order, the file does not read back as the last document written (step {})", h, step), json!({"history": format!("{:?}", h), "step": step}));
+                    break;
+                }
+            }
+            let _ = std::fs::remove_file(&path);
+        }
+        distinct += file_hist;
+        rep.set("export_file_histories", json!(file_hist));
+    }
     let _ = std::fs::remove_dir_all(&dir);
 
     rep.set("evaluations", json!(evals));
     rep.set("distinct_nontrivial", json!(distinct));
     rep.set("exhaustive", json!(true));
-    rep.set("rule", json!(format!("{} seeded key pairs x {} digests: sign/verify; each of 512 signature bits, 256 digest bits, 256 key bits flipped; every other key; batches of size 0..={} (all valid; each position x each signature bit; each position x each other member's signature; every subset corrupted vs conjunction); base64/serde_json/bincode round trips incl. keys with each byte forced to 0x00/0xff; real Secret/Committee Export::write/read files. distinct = distinct (key,digest,mutation) cases, all non-trivial", nkeys, ndig, maxb)));
+    rep.set("rule", json!(format!("{} seeded key pairs x {} digests: sign/verify; each of 512 signature bits, 256 digest bits, 256 key bits flipped; every other key; batches of size 0..={} (all valid; each position x each signature bit; each position x each other member's signature; every subset corrupted vs conjunction); base64/serde_json/bincode round trips incl. keys with each byte forced to 0x00/0xff; real Secret/Committee Export::write/read files, fresh and over every history of <= 3 earlier exports to the same path. distinct = distinct (key,digest,mutation) cases, all non-trivial", nkeys, ndig, maxb)));
     rep.assume("honestly generated keys and bit-flipped honest signatures only, as the property's quantifier states; crafted small-order points are outside it");
     rep.finish()
 }
